@@ -310,6 +310,9 @@ mod verif_c05r {
     }
 
     fn row(rr: RoundedRectangle, reach: i64) {
+        row2(rr, reach, true)
+    }
+    fn row2(rr: RoundedRectangle, reach: i64, expect_cut_corner: bool) {
         let mut s = Scanlines::new(&rr);
         let y: i32 = kani::any();
         kani::assume(s.rounded_rectangle.rows.start <= y && y < s.rounded_rectangle.rows.end);
@@ -328,7 +331,9 @@ mod verif_c05r {
         }
         assert!(s.rounded_rectangle.rows.start == y + 1);
         kani::cover!(rr.contains(q));
-        kani::cover!(!rr.contains(q) && sp::contains(&rr.bounding_box(), q));
+        if expect_cut_corner {
+            kani::cover!(!rr.contains(q) && sp::contains(&rr.bounding_box(), q));
+        }
     }
     //@harness prop=C05 kind=bounded tier=thorough class=P bound="rounded rectangle <= 6x6, four independent corner radii that fit the rectangle (no confinement needed), position +-1024" timeout=3000 fns=src/primitives/rounded_rectangle/points.rs::Scanlines::next;src/primitives/rounded_rectangle/mod.rs::RoundedRectangleContains::new;src/primitives/rounded_rectangle/mod.rs::RoundedRectangleContains::contains
     #[kani::proof]
@@ -369,20 +374,25 @@ mod verif_c05r {
     /// Four *different* corner radii (each corner its own width and height): the row of the real scanline
     /// iterator is still exactly the set contains() accepts -- decides that both use the same corner for the
     /// same quadrant rows (left/right, top/bottom mix-ups need unequal radii to show).
-    //@harness prop=C05 kind=bounded tier=quick class=P bound="rounded rectangle w <= 3, h <= 7 at (0,0), four independent corner radii rx <= 1, ry <= 3 that fit; any row, probe column within +-6" timeout=900 kani="--no-assertion-reach-checks" fns=src/primitives/rounded_rectangle/points.rs::Scanlines::next;src/primitives/rounded_rectangle/mod.rs::RoundedRectangleContains::new;src/primitives/rounded_rectangle/mod.rs::RoundedRectangleContains::contains
+    //@harness prop=C05 kind=bounded tier=quick class=P bound="rounded rectangle w <= 4, h <= 7 at (0,0), four independent corner radii rx <= 2, ry <= 3 that fit; any row, probe column within +-6" timeout=900 kani="--no-assertion-reach-checks" fns=src/primitives/rounded_rectangle/points.rs::Scanlines::next;src/primitives/rounded_rectangle/mod.rs::RoundedRectangleContains::new;src/primitives/rounded_rectangle/mod.rs::RoundedRectangleContains::contains
     #[kani::proof]
-    #[kani::unwind(6)]
+    #[kani::unwind(7)]
     #[kani::stub(crate::primitives::ellipse::EllipseContains::contains, crate::primitives::ellipse::verif_ell::contains_by_contract)]
     #[kani::stub(crate::primitives::rounded_rectangle::CornerRadii::confine, crate::primitives::rounded_rectangle::corner_radii::verif_cr::confine_by_contract)]
     fn c05_rounded_rect_row_unequal_corners() {
         let bits = |m: u8| (kani::any::<u8>() & m) as u32;
-        let (w, h) = (bits(3), bits(7));
-        let corner = || Size::new(bits(1), bits(3));
+        let (w, h) = (bits(7), bits(7));
+        kani::assume(w <= 4);
+        let corner = || {
+            let c = Size::new(bits(3), bits(3));
+            kani::assume(c.width <= 2);
+            c
+        };
         let corners = CornerRadii { top_left: corner(), top_right: corner(), bottom_right: corner(), bottom_left: corner() };
         let rr = RoundedRectangle::new(Rectangle::new(Point::new(0, 0), Size::new(w, h)), corners);
         kani::assume(fits(&rr));
-        row(rr, 6);
-        kani::cover!(corners.bottom_left.height == 1 && corners.bottom_right.height == 3 && corners.bottom_left.width == 1);
+        row2(rr, 6, true);
+        kani::cover!(corners.bottom_left.height == 1 && corners.bottom_right.height == 3 && corners.bottom_left.width == 2);
     }
 
     /// contains() is false outside the bounding box (loop-free)
